@@ -291,7 +291,7 @@ func Mismatch() {
 	ctx.Set("t", true)
 	exprs := []string{"n + s", "n - s", "n * f", "f / n", "n < s", "n + t", "f + s", "n - \"x\"", "1 + \"a\"", "2.5 * 2",
 		// a string on the left: only + takes any right operand
-		"s == n", "s != n", "s < n", "s >= f", "s ~= n", "\"1\" == 1", "\"true\" == t", "s - n", "s * 2", "s / s", "\"1.5\" == f"}
+		"t == n", "t != s", "t == f", "true == 1", "false != \"a\"", "s == n", "s != n", "s < n", "s >= f", "s ~= n", "\"1\" == 1", "\"true\" == t", "s - n", "s * 2", "s / s", "\"1.5\" == f"}
 	e := exprs[vrt.Choice(len(exprs))]
 	got, err := render(e, ctx)
 	vrt.Assert(err != nil, "operand-type mismatch is an error")
